@@ -166,6 +166,11 @@ def search(ctx, broken, disagreements):
     for (rx, ry, rot, fa, fs, e) in itertools.product(rxs, [F(5), F(3), F(-3)], [F(0), F(30), F(-120), F(400)], (0, 1), (0, 1),
                                                        [[F(10), F(0)], [F(0), F(10)], [F(3), F(-4)], [F(0), F(0)], [F(-7), F(1, 2)]]):
         cands.append([[F(0), F(0)], rx, ry, rot, fa, fs, e])
+    # radii so large that the arc is almost straight (the recorded finding lives beyond rx*ry ~ 4.5e15; just below must hold)
+    for r1, r2 in ((F(6 * 10**7), F(6 * 10**7)), (F(7 * 10**7), F(7 * 10**7)), (F(10**7), F(10**9)), (F(10**6), F(10**6)), (F(10**9), F(10**5))):
+        for rot in (F(0), F(30)):
+            for fs in (0, 1):
+                cands.append([[F(0), F(0)], r1, r2, rot, 0, fs, [F(10), F(0)]])
     rng = ctx.rng
     for _ in range(ctx.n(1500, 20000)): cands.append(rnd_arc(rng))
     for a in cands:
@@ -181,6 +186,9 @@ def matches_known(v, entry):
     a = unjson(v['input']['arc'])
     if sig.get('pattern') == 'negative_radius_product':
         return (a[1] * a[2] < 0)
+    if sig.get('pattern') == 'huge_radii_degenerate_inverse':
+        # scale(1/rx, 1/ry) has determinant 1/(rx ry) <= float epsilon: Affine2D.inverse() answers "degenerate"
+        return a[1] != 0 and a[2] != 0 and abs(1.0 / (float(a[1]) * float(a[2]))) <= 2.220446049250313e-16
     return False
 
 def replay(ctx, w):
